@@ -88,6 +88,7 @@ class TS:
         self.D = None
         self.problems = []
         self.trials = 0
+        self.alias = {}        # local name -> 'self.loss' | 'self.last' (plain copies of the fields)
 
     def problem(self, node, msg):
         self.problems.append((node, msg))
@@ -110,6 +111,11 @@ class TS:
                     self.p = 'X'
         for t, v in _assign_pairs(st):
             d = dotted(t)
+            if isinstance(t, ast.Name):
+                if dotted(v) in ('self.loss', 'self.last'):
+                    self.alias[t.id] = (dotted(v), self.l if dotted(v) == 'self.loss' else self.last)
+                else:
+                    self.alias.pop(t.id, None)
             if d == 'self.loss':
                 self.l = _loss_value_state(v, (self.p, self.l, self.last))
             elif d == 'self.last':
@@ -159,6 +165,8 @@ def rule_ts(repo, tier):
                     ts.stmt(e[1])
                     if isinstance(e[1], ast.Return):
                         rv = dotted(e[1].value) if e[1].value is not None else None
+                        if rv in ts.alias and ts.alias[rv][0] == 'self.loss' and ts.alias[rv][1] == ts.l:
+                            rv = 'self.loss'      # `tmp = self.loss; return tmp` with no write to the field in between
                         if rv != 'self.loss':
                             ts.problem(e[1], 'step returns `%s`, not self.loss' % (src(e[1].value) if e[1].value else None))
                         if ts.trials and not (ts.p == ts.l and ts.p in ('B', 'T')):
